@@ -302,6 +302,8 @@ func (c *Cluster) PingNode(host string) (bool, error) {
 	if err != nil {
 		return false, err
 	}
+	// one-shot handle: release its connection pool, otherwise every call leaks it
+	defer func() { _ = node.Close() }()
 	ok, err := node.Ping()
 	if err != nil && IsErrorDubious(err) {
 		return false, err
